@@ -174,7 +174,8 @@ type listener struct {
 	option   []transport.Option
 	options  *transport.Options
 	acceptor transport.Acceptor
-	mutex    sync.Mutex // guards options and acceptor
+	mutex    sync.Mutex // guards options, acceptor and closed
+	closed   bool
 }
 
 // Acceptor returned the acceptor
@@ -187,7 +188,14 @@ func (l *listener) Acceptor() transport.Acceptor {
 // Close listener
 func (l *listener) Close() error {
 	l.bs.removeListener(l.url)
-	if acceptor := l.Acceptor(); acceptor != nil {
+
+	// remember the close: an accept loop that has not created its acceptor yet must not start.
+	l.mutex.Lock()
+	l.closed = true
+	acceptor := l.acceptor
+	l.mutex.Unlock()
+
+	if acceptor != nil {
 		return acceptor.Close()
 	}
 	return nil
@@ -224,6 +232,11 @@ func (l *listener) listen() (transport.Acceptor, *transport.Options, error) {
 
 	if nil != l.acceptor {
 		return nil, nil, fmt.Errorf("duplicate call Listener:Sync")
+	}
+
+	// closed (or the bootstrap was shut down) before the accept loop started
+	if l.closed {
+		return nil, nil, ErrServerClosed
 	}
 
 	options, err := transport.ParseOptions(l.bs.Context(), l.url, l.option...)
